@@ -59,7 +59,7 @@ func c01Hang(c *Ctx) {
 			r.Violate("parser-loop", key, p.Pos(bad[i][0].pos), strings.Join(parts, "; "))
 		}
 	}
-	r.Floor("parser-loop", nl, 60, "loops in parser functions")
+	r.Floor("parser-loop", nl, 40, "loops in parser functions")
 	var must []string
 	for f, v := range m.onOK {
 		if v {
